@@ -42,6 +42,11 @@ var OpKinds = []string{"xfer", "deploy", "call", "vcreate", "vupdate", "vdeposit
 //	3 invalid   INVALID                                                burns all gas
 //	4 forward   CALL(gas, calldata[0:32], callvalue, 0,0,0,0) STOP     forwards the value; keeps it if the inner call fails
 //	5 fwdrevert CALL(...) then REVERT                                  inner frame (possibly failing) inside a failing outer frame
+//	6 probe     t = calldata[0:32]: SSTORE(1, EXTCODESIZE t) SSTORE(2, EXTCODEHASH t) SSTORE(3, BALANCE t)
+//	            EXTCODECOPY(t, 0, 0, 32) LOG1(0, 32, t) CALL(gas, t, callvalue, 0,0,0,0) STOP
+//	            (inspects an arbitrary address the way Solidity helpers do, sets / overwrites / clears storage, logs, pays the target)
+//	7 probe0    the same without the three SSTOREs (cannot earn a storage refund)
+//	8 factory   CREATE(callvalue, initcode of a sink) STOP           creates a child contract holding the value
 //
 // SELFDESTRUCT to the contract itself (an EVM-defined burn) is deliberately not in the
 // alphabet: it destroys value by the definition of the opcode.
@@ -52,7 +57,50 @@ var contractRuntime = [][]byte{
 	{0xfe},
 	{0x60, 0x00, 0x60, 0x00, 0x60, 0x00, 0x60, 0x00, 0x34, 0x60, 0x00, 0x35, 0x5a, 0xf1, 0x00},
 	{0x60, 0x00, 0x60, 0x00, 0x60, 0x00, 0x60, 0x00, 0x34, 0x60, 0x00, 0x35, 0x5a, 0xf1, 0x60, 0x00, 0x60, 0x00, 0xfd},
+	probeRuntime(true),
+	probeRuntime(false),
+	factoryRuntime(),
 }
+
+func probeRuntime(store bool) []byte {
+	c := []byte{0x60, 0x00, 0x35} // PUSH1 0 CALLDATALOAD -> [t]
+	for i, op := range []byte{0x3b, 0x3f, 0x31} { // EXTCODESIZE, EXTCODEHASH, BALANCE
+		c = append(c, 0x80, op) // DUP1 <op> -> [t, v]
+		if store {
+			c = append(c, 0x60, byte(i+1), 0x55) // PUSH1 slot SSTORE
+		} else {
+			c = append(c, 0x50) // POP
+		}
+	}
+	c = append(c, 0x60, 0x20, 0x60, 0x00, 0x60, 0x00, 0x83, 0x3c) // PUSH1 32 PUSH1 0 PUSH1 0 DUP4 EXTCODECOPY
+	c = append(c, 0x80, 0x60, 0x20, 0x60, 0x00, 0xa1)             // DUP1 PUSH1 32 PUSH1 0 LOG1
+	c = append(c, 0x60, 0x00, 0x60, 0x00, 0x60, 0x00, 0x60, 0x00, 0x34, 0x85, 0x5a, 0xf1, 0x50, 0x00) // CALL(gas, t, callvalue, 0,0,0,0) POP STOP
+	return c
+}
+
+func factoryRuntime() []byte {
+	child := initCode0()
+	c := append([]byte{0x60 + byte(len(child)) - 1}, child...) // PUSHn <initcode>
+	c = append(c, 0x60, 0x00, 0x52)                            // PUSH1 0 MSTORE (right-aligned in word 0)
+	c = append(c, 0x60, byte(len(child)), 0x60, byte(32-len(child)), 0x34, 0xf0, 0x50, 0x00) // PUSH1 size PUSH1 offset CALLVALUE CREATE POP STOP
+	return c
+}
+
+// initCode0 is the creation code of the sink template (kept separate: contractRuntime is still being initialised).
+func initCode0() []byte {
+	rt := []byte{0x34, 0x60, 0x00, 0x55, 0x00}
+	return append([]byte{0x60, byte(len(rt)), 0x80, 0x60, 0x0b, 0x60, 0x00, 0x39, 0x60, 0x00, 0xf3}, rt...)
+}
+
+// KindProbe / KindProbeNoStore / KindFactory are the indices of the inspecting templates.
+const (
+	KindProbe        = 6
+	KindProbeNoStore = 7
+	KindFactory      = 8
+)
+
+// ByKind added to a call op's X selects the first deployed contract of kind X-ByKind (the op is skipped if there is none).
+const ByKind = 1000
 
 // NContractKinds is the number of contract templates.
 var NContractKinds = len(contractRuntime)
@@ -326,8 +374,12 @@ func (w *World) MakeTx(op Op, st *state.StateDB, vals []*state.Validator, nonces
 	case "deploy":
 		from := mod(op.A, NSenders)
 		kind := mod(op.X, NContractKinds)
-		if w.NoRefund && kind == 2 {
-			kind = 0
+		if w.NoRefund && (kind == 2 || kind == KindProbe) {
+			if kind == 2 {
+				kind = 0
+			} else {
+				kind = KindProbeNoStore
+			}
 			w.Excluded["excluded:refund-minted"]++
 		}
 		code := initCode(kind)
@@ -346,11 +398,25 @@ func (w *World) MakeTx(op Op, st *state.StateDB, vals []*state.Validator, nonces
 		}
 		from := mod(op.A, NSenders)
 		ci := mod(op.X, len(w.Contracts))
+		if op.X >= ByKind {
+			ci = -1
+			for i, k := range w.CKinds {
+				if k == op.X-ByKind || (op.X-ByKind == KindProbe && k == KindProbeNoStore) {
+					ci = i
+					break
+				}
+			}
+			if ci < 0 {
+				return skip()
+			}
+		}
 		to := w.Contracts[ci]
 		meta.CKind, meta.Contract = w.CKinds[ci], to
-		// calldata: one word, the forwarding target
+		// calldata: one word, the forwarding / inspected target
 		var target common.Address
-		switch y := mod(op.Y, NAcct+4+len(w.Contracts)); {
+		switch y := mod(op.Y, NAcct+4+len(w.Contracts)+3); {
+		case y >= NAcct+4+len(w.Contracts):
+			target = common.BigToAddress(big.NewInt(int64(0xab0000 + y))) // absent from the state
 		case y < NAcct:
 			target = Accounts[y].Addr
 		case y == NAcct:
@@ -374,7 +440,7 @@ func (w *World) MakeTx(op Op, st *state.StateDB, vals []*state.Validator, nonces
 			val = big.NewInt(1e17)
 			w.Excluded["excluded:refund-minted"]++
 		}
-		return finish(from, &to, val, gasLimit(op, intr, 120000, blockGasLimit), data)
+		return finish(from, &to, val, gasLimit(op, intr, 220000, blockGasLimit), data)
 
 	case "vcreate":
 		// identity: first non-existing from the selector on, unless flagged "existing"
